@@ -57,6 +57,15 @@ type op struct {
 	Hi     int64  `json:"hi,omitempty"`
 }
 
+// one copy-shard attempt of a sequence: ops on the source first, then the RPC with a fault
+type attemptDesc struct {
+	Pre         []op   `json:"pre,omitempty"`
+	Fault       string `json:"fault,omitempty"` // "" none | cut | lstat | open
+	CutMember   int    `json:"cut_member,omitempty"`
+	CutOff      int64  `json:"cut_off,omitempty"`
+	FaultMember int    `json:"fault_member,omitempty"`
+}
+
 type caseDesc struct {
 	Ops  []op   `json:"ops"`
 	Mode string `json:"mode"` // full | import | since | cut | rpc | export | busy
@@ -85,6 +94,11 @@ type caseDesc struct {
 	// incr: after the full backup+restore, for each round: these ops on the source, then a
 	// since-bounded backup restored OVER the destination
 	Rounds [][]op `json:"rounds,omitempty"`
+	// the source shard's snapshot compactions are switched off (Shard.SetCompactionsEnabled(false),
+	// as Shard.Free does for a shard found idle) when the backup is taken
+	SnapOff bool `json:"snap_off,omitempty"`
+	// copyseq: copy-shard attempts to the SAME destination, one after the other
+	Attempts []attemptDesc `json:"attempts,omitempty"`
 	// extra archive members injected before restore (malformed stream): 0 none, 1 fields.idx file,
 	// 2 directory entry "index", 3 member with a foreign shard prefix
 	Extra int `json:"extra,omitempty"`
@@ -251,6 +265,12 @@ func newStore(dir string) *tsdb.Store {
 	st.EngineOptions.Config.Dir = filepath.Join(dir, "data")
 	if err := st.Open(); err != nil {
 		panic(err)
+	}
+	// Background level/full compactions would change the file set between the observation of
+	// a shard and its backup (a case can take more than the planner's 1 s tick on a loaded
+	// machine): take every token of the compaction limiter. Cache snapshots are not limited
+	// by it, and the harness's own full compactions call the Compactor directly.
+	for st.EngineOptions.CompactionLimiter.TryTake() {
 	}
 	return st
 }
@@ -947,6 +967,10 @@ func runCase(o *hx.Out, ev *env, d caseDesc, origin string) {
 		runIncr(o, ev, d, origin)
 		return
 	}
+	if d.Mode == "copyseq" {
+		runCopySeq(o, ev, d, origin)
+		return
+	}
 	o.Begin(d.Mode, d)
 	id := ev.nextID
 	ev.nextID++
@@ -1021,6 +1045,14 @@ func runCase(o *hx.Out, ev *env, d caseDesc, origin string) {
 			since = sinceBase
 		}
 	}
+	if d.SnapOff {
+		ev.src.Shard(id).SetCompactionsEnabled(false)
+		defer func() {
+			if sh := ev.src.Shard(id); sh != nil {
+				sh.SetCompactionsEnabled(true)
+			}
+		}()
+	}
 	var archive bytes.Buffer
 	var berr error
 	rpcMode := d.Mode == "rpc"
@@ -1048,7 +1080,9 @@ func runCase(o *hx.Out, ev *env, d caseDesc, origin string) {
 	} else {
 		// obtain the archive bytes the source WOULD send (to locate member boundaries); the
 		// copy itself pulls a second, identical backup through the proxy
-		berr = ev.src.BackupShard(id, time.Time{}, &archive)
+		if !d.SnapOff || len(r.srcCache) == 0 {
+			berr = ev.src.BackupShard(id, time.Time{}, &archive)
+		}
 	}
 	if d.Mode == "busy" {
 		eng.Cache.ClearSnapshot(false)
@@ -1218,6 +1252,161 @@ func applyOps(o *hx.Out, st *tsdb.Store, db string, id uint64, ops []op) {
 			o.Count("operr:" + x.Kind)
 		}
 	}
+}
+
+type attemptObs struct {
+	files       []fileObs
+	cache       map[string][]tv
+	nextStem    string
+	cut, total  int64
+	srcFail     int
+	srcFailHdr  bool
+	src         map[string][]tv
+	members     []memberObs
+	archiveOK   bool
+	advertised  bool
+	dstOK       bool
+	dst         map[string][]tv
+	dstFiles    []fileObs
+	removed     int
+}
+
+// runCopySeq: copy-shard RPCs to the same destination, each after more operations on the
+// source and each with its own fault; the destination shard is whatever the previous
+// attempts left behind (absent, created but empty, an older complete copy).
+func runCopySeq(o *hx.Out, ev *env, d caseDesc, origin string) {
+	o.Begin(d.Mode, d)
+	id := ev.nextID
+	ev.nextID++
+	db := "db"
+	scratch := filepath.Join(ev.dir, "scratch")
+	defer func() {
+		ev.src.DeleteShard(id)
+		ev.dst.DeleteShard(id)
+	}()
+	if err := ev.src.CreateShard(db, "rp", id, true); err != nil {
+		panic(err)
+	}
+	applyOps(o, ev.src, db, id, d.Ops)
+	shDir := filepath.Join(ev.src.Path(), db, "rp", fmt.Sprint(id))
+	dstDir := filepath.Join(ev.dst.Path(), db, "rp", fmt.Sprint(id))
+	base := filepath.ToSlash(filepath.Join(db, "rp", fmt.Sprint(id)))
+	var atts []attemptObs
+	for _, a := range d.Attempts {
+		applyOps(o, ev.src, db, id, a.Pre)
+		eng := engineOf(ev.src, id)
+		ao := attemptObs{cut: -1, srcFail: -1}
+		var err error
+		if ao.files, err = observeDir(shDir, scratch); err != nil {
+			panic(err)
+		}
+		ao.cache = observeCache(eng)
+		ao.nextStem = tsm1.DefaultFormatFileName(eng.FileStore.CurrentGeneration()+1, 1)
+		ao.src, _ = readShard(ev.src, id)
+		// the archive the source is going to send (member offsets for the fault position)
+		var archive bytes.Buffer
+		berr := ev.src.BackupShard(id, time.Time{}, &archive)
+		o.Count("backup:" + errClass(berr))
+		ao.members, ao.archiveOK = parseArchive(archive.Bytes(), scratch)
+		ao.total = int64(archive.Len())
+		n := len(ao.members)
+		switch a.Fault {
+		case "cut":
+			cm := a.CutMember
+			if cm > n {
+				cm = n
+			}
+			start := int64(0)
+			if n > 0 {
+				if cm < n {
+					start = ao.members[cm].Start
+				} else {
+					start = ao.members[n-1].Next
+				}
+			}
+			ao.cut = start + a.CutOff
+			if ao.cut < 0 {
+				ao.cut = 0
+			}
+			if ao.cut > ao.total {
+				ao.cut = ao.total
+			}
+		case "lstat", "open":
+			lo := 0
+			if a.Fault == "lstat" {
+				lo = 1
+			}
+			if n > lo {
+				k := lo + a.FaultMember%(n-lo)
+				ev.fault.mu.Lock()
+				ev.fault.active, ev.fault.kind, ev.fault.k, ev.fault.shDir, ev.fault.err = true, a.Fault, k, shDir, nil
+				ev.fault.name = filepath.Base(ao.members[k].Name)
+				ev.fault.after = 0
+				if k > 0 {
+					ev.fault.after = ao.members[k-1].End
+				}
+				ev.fault.mu.Unlock()
+				ao.srcFail, ao.srcFailHdr = k, a.Fault == "open"
+			}
+		}
+		ev.proxy.setLimit(ao.cut)
+		c := coordinator.NewClient(nil, 10*time.Second)
+		rerr := c.CopyShard(ev.lnDst.Addr().String(), ev.proxy.ln.Addr().String(), db, "rp", id, time.Time{})
+		ev.proxy.setLimit(-1)
+		ao.advertised = rerr == nil
+		o.Count("copyseq:fault=" + a.Fault + fmt.Sprintf(":acked=%v", ao.advertised))
+		if ev.dst.Shard(id) != nil {
+			ao.dst, ao.dstOK = readShard(ev.dst, id)
+			ao.dstFiles, _ = observeDir(dstDir, scratch)
+		} else {
+			ao.dstOK = true // no shard: nothing is served
+		}
+		srcNames := map[string]bool{}
+		if after, err := observeDir(shDir, scratch); err == nil {
+			for _, f := range after {
+				srcNames[f.Name] = true
+			}
+		}
+		for _, f := range ao.dstFiles {
+			if !srcNames[f.Name] {
+				ao.removed++
+			}
+		}
+		atts = append(atts, ao)
+	}
+	var items []string
+	bad, removed := 0, 0
+	for _, ao := range atts {
+		var dstNames []string
+		for _, f := range ao.dstFiles {
+			dstNames = append(dstNames, fmt.Sprintf("(%s, %s)", hx.CoqStr(f.Name), hx.CoqBool(f.HasTS)))
+		}
+		items = append(items, fmt.Sprintf("(mk_cattempt %s %s %s %s %s %s %s %s %s %s %s %s %s %s)",
+			coqFiles(ao.files), coqKVs(ao.cache), hx.CoqStr(ao.nextStem), hx.CoqZ(ao.cut), hx.CoqZ(ao.total),
+			hx.CoqZ(int64(ao.srcFail)), hx.CoqBool(ao.srcFailHdr), coqKVs(ao.src), coqMembers(ao.members), hx.CoqBool(ao.archiveOK),
+			hx.CoqBool(ao.advertised), hx.CoqBool(ao.dstOK), coqKVs(ao.dst), hx.CoqList(dstNames)))
+		if ao.advertised && !sameReads(ao.src, ao.dst) {
+			bad++
+			removed += ao.removed
+		}
+	}
+	coq := fmt.Sprintf("mk_copyseq %s %s", hx.CoqStr(base), hx.CoqList(items))
+	o.Count("mode:copyseq")
+	o.Count(fmt.Sprintf("copyseq:attempts=%d", len(atts)))
+	var acks []bool
+	for _, ao := range atts {
+		acks = append(acks, ao.advertised)
+	}
+	last := attemptObs{}
+	if len(atts) > 0 {
+		last = atts[len(atts)-1]
+	}
+	obs := map[string]interface{}{
+		"acknowledged": acks, "acknowledged_but_different": bad, "dst_files_removed_on_source": removed,
+		"dst_equals_src": sameReads(last.src, last.dst), "src_points": countPts(last.src), "dst_points": countPts(last.dst),
+	}
+	sig, _ := json.Marshal(d)
+	o.Emit(hx.Case{Kind: d.Mode, Coq: coq, Desc: d, Obs: obs, Nontrivial: countPts(last.src) > 0, Sig: string(sig), Origin: origin})
 }
 
 // fsClockAfter waits until a file written now gets a modification time later than t and returns it.
@@ -1403,7 +1592,7 @@ func emit(o *hx.Out, d caseDesc, r *result, origin string) {
 	}
 	coq := fmt.Sprintf("mk_case %d %s %s %s %s %s %s %s %s %s %s %s %s %s %s %s %s %s %s %s %s %s %s %s %s",
 		mode,
-		coqFiles(r.srcFiles), coqKVs(r.srcCache), hx.CoqBool(r.busy),
+		coqFiles(r.srcFiles), coqKVs(r.srcCache), fmt.Sprint(snapMode(r.busy, d.SnapOff)),
 		hx.CoqStr(r.nextStem), hx.CoqStr(r.base),
 		hx.CoqZ(since), hx.CoqZ(d.ExLo), hx.CoqZ(d.ExHi), hx.CoqZ(r.cutAt), hx.CoqZ(r.total),
 		hx.CoqZ(int64(r.srcFail)), hx.CoqBool(r.srcFailOpen),
@@ -1427,6 +1616,9 @@ func emit(o *hx.Out, d caseDesc, r *result, origin string) {
 	if len(d.During) > 0 {
 		o.Count("during:writes")
 	}
+	if d.SnapOff {
+		o.Count("snapshots-disabled")
+	}
 	if r.cutAt >= 0 {
 		o.Count("cut:" + cutClass(r))
 	}
@@ -1443,6 +1635,16 @@ func emit(o *hx.Out, d caseDesc, r *result, origin string) {
 	sig, _ := json.Marshal(d)
 	o.Emit(hx.Case{Kind: d.Mode, Coq: coq, Desc: d, Obs: obs,
 		Nontrivial: countPts(r.srcBefore) > 0 && (nfiles > 0 || ncache > 0), Sig: string(sig), Origin: origin})
+}
+
+func snapMode(busy, off bool) int {
+	switch {
+	case busy:
+		return 1
+	case off:
+		return 2
+	}
+	return 0
 }
 
 func countTS(fs []fileObs) int {
@@ -1579,6 +1781,20 @@ func genCase(r *hx.Rand, i int) caseDesc {
 			d.Rounds = append(d.Rounds, genRoundOps(r))
 		}
 		return d
+	case 10, 11:
+		d.Mode = "copyseq"
+		d.Ops = append(d.Ops, op{Kind: "write", Pts: genPts(r, 2, 20)}, op{Kind: "snapshot"}, op{Kind: "write", Pts: genPts(r, 2, 20)})
+		for k := 1 + r.Intn(3); k > 0; k-- {
+			a := attemptDesc{Fault: []string{"", "", "cut", "cut", "lstat", "open"}[r.Intn(6)]}
+			if len(d.Attempts) > 0 && r.Chance(60) {
+				a.Pre = genRoundOps(r)
+			}
+			a.CutMember = r.Intn(5)
+			a.CutOff = []int64{0, 0, 1, 100, 511, 512, 513, 600, -1, -100, 1024}[r.Intn(11)]
+			a.FaultMember = r.Intn(6)
+			d.Attempts = append(d.Attempts, a)
+		}
+		return d
 	case 15:
 		d.Mode = "srcfault"
 		d.Ops = append(d.Ops, op{Kind: "write", Pts: genPts(r, 2, 20)}, op{Kind: "snapshot"}, op{Kind: "write", Pts: genPts(r, 2, 20)})
@@ -1595,6 +1811,8 @@ func genCase(r *hx.Rand, i int) caseDesc {
 		}
 		if r.Chance(15) {
 			d.Extra = 1 + r.Intn(3)
+		} else if r.Chance(12) {
+			d.SnapOff, d.During = true, nil
 		}
 	case m < 5:
 		d.Mode = "import"
@@ -1662,6 +1880,14 @@ func designed() []caseDesc {
 	for _, ex := range []int{1, 2, 3} {
 		ds = append(ds, caseDesc{Mode: "full", Ops: tomb, Extra: ex, CutMember: -1})
 	}
+	// snapshot compactions disabled on the source while it holds cached points (and with an empty cache)
+	for _, mode := range []string{"full", "rpc"} {
+		ds = append(ds,
+			caseDesc{Mode: mode, CutMember: -1, SnapOff: true, Ops: append(append([]op{}, base...), w(pt{0, 0, 3, 5}))},
+			caseDesc{Mode: mode, CutMember: -1, SnapOff: true, Ops: []op{w(pt{0, 0, 3, 5})}},
+			caseDesc{Mode: mode, CutMember: -1, SnapOff: true, Ops: base},
+		)
+	}
 	// the source loses a snapshot file while streaming: before every member, both ways, direct and through the RPC
 	three := append(append([]op{}, two...), w(pt{1, 1, 7, 3}))
 	for k := 0; k < 4; k++ {
@@ -1671,6 +1897,20 @@ func designed() []caseDesc {
 			}
 		}
 	}
+	// copy-shard attempts to the same destination: a retry after every kind of failure, a second
+	// copy over an older complete copy
+	for _, f := range []attemptDesc{{Fault: "cut", CutMember: 1, CutOff: 100}, {Fault: "cut", CutMember: 0, CutOff: 0},
+		{Fault: "cut", CutMember: 2, CutOff: 0}, {Fault: "lstat", FaultMember: 0}, {Fault: "open", FaultMember: 1}} {
+		ds = append(ds,
+			caseDesc{Mode: "copyseq", CutMember: -1, Ops: three, Attempts: []attemptDesc{f, {}}},
+			caseDesc{Mode: "copyseq", CutMember: -1, Ops: three, Attempts: []attemptDesc{f, f, {Pre: []op{w(pt{2, 2, 9, 1}), del(1, 1, 0)}}}},
+		)
+	}
+	ds = append(ds,
+		caseDesc{Mode: "copyseq", CutMember: -1, Ops: three, Attempts: []attemptDesc{{}, {Pre: []op{del(1, 1, 0), w(pt{0, 0, 8, 8})}}}},
+		caseDesc{Mode: "copyseq", CutMember: -1, Ops: three, Attempts: []attemptDesc{{}, {Pre: []op{del(5, 5, 0)}, Fault: "cut", CutMember: 1, CutOff: 0}, {}}},
+		caseDesc{Mode: "copyseq", CutMember: -1, Attempts: []attemptDesc{{}, {Pre: []op{w(pt{0, 0, 1, 1})}}}}, // empty shard copied first
+	)
 	// incremental restores over an earlier copy
 	ds = append(ds,
 		// a delete that hits a file the full backup already shipped: the increment holds the tombstone file alone
